@@ -38,7 +38,8 @@ class Item:
     def last(self, prop):
         v = None
         for d in self.decls:
-            if isinstance(d, tuple) and d[0].lower() == prop:
+            # the cascade inside one rule: the last !important declaration wins, else the last one
+            if isinstance(d, tuple) and d[0].lower() == prop and (v is None or d[2] or not v[2]):
                 v = d
         return v
 
@@ -72,6 +73,15 @@ KINDS = {
                                                 ("unicode-range", "U+0025-00FF, u+4??", False), ("margin", "0 ! important", False)]),
     "var_root_strings": lambda: Item("var_root_strings", [("color", "var(--t)", False)], needs=("--t",),
                                      extra_blocks=(':root {\n  --sep: "a ;b"; /* x ; y */\n  --w: " ;";\n}\n',)),
+    # translucent text whose exact blend sits just below a threshold (truncating instead of rounding the blend lifts it over)
+    "hsla_premium_edge": lambda: Item("hsla_premium_edge", [("color", "hsla(210, 100%, 20%, 0.8)", False)]),
+    "hsla_on_light": lambda: Item("hsla_on_light", [("color", "hsla(210, 100%, 35%, 0.85)", False), ("background-color", "#f0f0f0", False)]),
+    "rgba_premium_edge": lambda: Item("rgba_premium_edge", [("color", "rgba(0, 51, 102, 0.8)", False)]),
+    # CSS Color 4 alias forms: hsl() / rgb() carrying an alpha
+    "hsl_with_alpha": lambda: Item("hsl_with_alpha", [("color", "hsl(0, 0%, 0%, 0.3)", False)]),
+    "hsl_slash_alpha": lambda: Item("hsl_slash_alpha", [("color", "hsl(0 0% 40% / 0.1)", False), ("background-color", "#fff", False)]),
+    "hsla_slash_alpha": lambda: Item("hsla_slash_alpha", [("color", "hsla(0 0% 0% / 0.5)", False)]),
+    "rgb_slash_alpha": lambda: Item("rgb_slash_alpha", [("color", "rgb(0 0 0 / 0.3)", False)]),
     # the same selector in two rules (a base rule and an override): cards and counts must still tell them apart
     "dup_light": lambda: Item("dup_light", [("color", "#888", False), ("background-color", "#fff", False)], selector_fmt=".dup"),
     "dup_dark": lambda: Item("dup_dark", [("color", "#777", False), ("background-color", "#222", False)], selector_fmt=".dup"),
@@ -84,6 +94,16 @@ KINDS = {
     "bg_black_first_only": lambda: Item("bg_black_first_only", [("background-color", "#000000", False), ("color", "#bbbbbb", False)]),
     "bg_dark_first": lambda: Item("bg_dark_first", [("background-color", "#222", False), ("margin", "0", False), ("color", "#666", False)]),
     "important": lambda: Item("important", [("color", "#777", True)]),
+    # !important beats a later plain declaration of the same property
+    "important_then_plain": lambda: Item("important_then_plain", [("color", "#000", True), ("color", "#777", False)]),
+    "important_fail_then_plain": lambda: Item("important_fail_then_plain", [("color", "#777", True), ("margin", "0", False), ("color", "#000", False)]),
+    "bg_important_then_plain": lambda: Item("bg_important_then_plain", [("color", "#777", False), ("background-color", "#fff", True), ("background-color", "#000", False)]),
+    # the same for definitions of a custom property: !important beats order and specificity
+    "var_def_important_then_plain": lambda: Item("var_def_important_then_plain", [("color", "var(--ip)", False)],
+                                                 extra_blocks=(":root {\n  --ip: #000 !important;\n  --ip: #888;\n}\n",)),
+    "var_def_html_important": lambda: Item("var_def_html_important", [("color", "var(--hi)", False)],
+                                           extra_blocks=("html {\n  --hi: #777 !important;\n}\n:root {\n  --hi: #111;\n}\n",)),
+    "both_important": lambda: Item("both_important", [("color", "#000", True), ("color", "#888", True)]),
     "repeated": lambda: Item("repeated", [("color", "#000", False), ("margin", "0", False), ("color", "#777", False)]),
     "repeated_after_bg": lambda: Item("repeated_after_bg", [("color", "#333", False), ("background-color", "#fff", False), ("color", "#999", False)]),
     "repeated_bg": lambda: Item("repeated_bg", [("background-color", "#000", False), ("color", "#ccc", False), ("background-color", "#fff", False)]),
